@@ -683,9 +683,37 @@ def r9_statements_kept(ctx, F, rule="C02.R9"):
                   "the module is frozen" % a, fn=f)
 
 
+def r10_optimize_keeps_components(ctx, F, rule="C02.R10"):
+    """re-optimising a statement rebuilds it from its parts: every field of every StmtCompiled variant is read by
+    `optimize` (a field matched with `_` and rebuilt from a default - e.g. the annotation of `x: T = e` replaced by
+    None - silently drops part of the program after the module is frozen)"""
+    f = F.one(r"eval::compiler::stmt::<impl eval::compiler::span::IrSpanned<eval::compiler::stmt::StmtCompiled>>::optimize$")
+    seen = set()
+    for g in [f] + list(F.closures_of(f)):
+        for st in g.stmts:
+            for m in re.finditer(r"as<(\w+)>\.\{[^}]*?::StmtCompiled::(\w+)\}", st.text()):
+                seen.add(m.groups())
+        for c in g.calls:
+            for a in c.args:
+                for m in re.finditer(r"as<(\w+)>\.\{[^}]*?::StmtCompiled::(\w+)\}", a):
+                    seen.add(m.groups())
+    adt = [x for x in F.adts.values() if x.qpath.endswith("compiler::stmt::StmtCompiled")]
+    if len(adt) != 1:
+        ctx.bad(rule, "stmt-components:anchor", "anchor-missing: enum StmtCompiled")
+        return
+    allf = sorted({(fl["variant"], fl["name"]) for fl in adt[0].fields})
+    for v, n in allf:
+        ctx.check((v, n) in seen, rule, "stmt-component-read:%s.%s" % (v, n), "the field is read when the statement is rebuilt",
+                  "StmtCompiled::optimize never reads field %s of `%s`: that component is dropped (or replaced by a "
+                  "default) in the bytecode regenerated when the module is frozen - e.g. the type of an annotated "
+                  "assignment is no longer checked" % (n, v), fn=f)
+    ctx.floor(rule, "fields of StmtCompiled variants", len(allf), 10)
+
+
 def run(ctx):
     F = ctx.facts("core")
     r6_specialised_equality(ctx, F)
+    r10_optimize_keeps_components(ctx, F)
     r9_statements_kept(ctx, F)
     r7_type_is_inline_positional(ctx, F)
     # the re-optimisation on freeze uses the declaring module of each def (shared with C04.R1)
